@@ -578,6 +578,8 @@ def state_close(pipe_a, pipe_b, tol=1e-9):
     if not ka:
         return True, ""
     va, vb = ea.state_of(ka), eb.state_of(ka)
+    # the executor's projections let the norm drift (1e-9 after many init/meas in loops): compare directions
+    va, vb = va / np.linalg.norm(va), vb / np.linalg.norm(vb)
     ov = np.vdot(va, vb)
     if abs(abs(ov) - 1) > tol:
         return False, f"|<a|b>| = {abs(ov):.12f}"
